@@ -33,6 +33,142 @@ def type_of_request_attr(m: Model, cls: ClassInfo, attr: str) -> str | None:
     return None
 
 
+def randomize_facts(m: Model):
+    rz = m.require_function(f"{SRV}.RandomUDSServer.randomize")
+    set_vars: dict[str, list[ast.expr]] = {}
+    for n in walk_no_nested(rz.node):
+        if isinstance(n, ast.Assign) and isinstance(n.targets[0], ast.Name):
+            v = n.value
+            if isinstance(v, (ast.Set, ast.SetComp)) or (isinstance(v, ast.Call) and ast.unparse(v.func) == "set") or \
+                    (isinstance(v, ast.BinOp) and isinstance(v.op, (ast.Sub, ast.BitOr, ast.BitAnd)) and any(isinstance(x, ast.Call) and ast.unparse(x.func) == "set" for x in ast.walk(v))):
+                set_vars.setdefault(n.targets[0].id, []).append(v)
+    iterated = []
+    for n in walk_no_nested(rz.node):
+        if isinstance(n, ast.For) and isinstance(n.iter, ast.Name) and n.iter.id in set_vars:
+            iterated.append((n.iter.id, n))
+    # names known to hold ints: variables assigned an int constant, loop variables over ranges / int sets / config lists
+    int_names = {ast.unparse(n.targets[0]) for n in walk_no_nested(rz.node) if isinstance(n, ast.Assign) and isinstance(n.value, ast.Constant) and isinstance(n.value.value, int)}
+    int_names |= {ast.unparse(n.target) for n in walk_no_nested(rz.node) if isinstance(n, ast.For) and isinstance(n.target, ast.Name)}
+    comb = {ast.unparse(n.targets[0]) for n in walk_no_nested(rz.node) if isinstance(n, ast.Assign) and "mandatory_sessions + self.randomness_parameters.optional_sessions" in ast.unparse(n.value)}
+    trans_names = {ast.unparse(n.targets[0]) for n in walk_no_nested(rz.node) if isinstance(n, ast.Assign) and isinstance(n.value, ast.ListComp)
+                   and ".random()" in ast.unparse(n.value) and ast.unparse(n.value.generators[0].iter) in comb}
+    return rz, set_vars, iterated, int_names, comb, trans_names
+
+
+def session_graph_rules(m: Model, r: Report, rid: str) -> None:
+    """The session graph built by RandomUDSServer.randomize: mandatory services, way back to the default session, inductive reachability of every
+    offered session, one service table per offered session, DSC sub-functions = transitions.  Shared by C16 (reachability) and C14 (the server
+    stays in a session it offers)."""
+    rz, set_vars, iterated, int_names, comb, trans_names = randomize_facts(m)
+    tables = [n.targets[0].id for n in walk_no_nested(rz.node) if isinstance(n, ast.Assign) and isinstance(n.targets[0], ast.Name) and isinstance(n.value, ast.ListComp)
+              and ast.unparse(n.value.elt) == "set()"]
+    if len(tables) != 1:
+        raise AnalysisError(f"{rz.qualname}: the per-session transition table ([set() for ...]) was not found")
+    T = tables[0]
+    consts = {n.targets[0].id for n in walk_no_nested(rz.node) if isinstance(n, ast.Assign) and isinstance(n.targets[0], ast.Name) and isinstance(n.value, ast.Constant)}
+    from sa.util import path_condition as _pc16
+    for n in walk_no_nested(rz.node):
+        if isinstance(n, ast.Assign) and isinstance(n.targets[0], ast.Subscript) and ast.unparse(n.targets[0].value) == T:
+            idx_ = ast.unparse(n.targets[0].slice)
+            fresh = any(pol and m.mtext(rz, t).replace(" ", "") == "len(_L[_L])==0" and any(isinstance(x, ast.Subscript) and ast.unparse(x.value) == T and ast.unparse(x.slice) == idx_ for x in ast.walk(t)) for t, pol in _pc16(rz.node, n))
+            in_loop = any(any(x is n for x in ast.walk(w)) for w in walk_no_nested(rz.node) if isinstance(w, ast.While))
+            r.check((idx_ in consts and not in_loop) or fresh, rid, f"{rz.qualname}#no-overwrite:{idx_}",
+                    f"`{ast.unparse(n)[:70]}` replaces the transitions of a session that may already have some: its earlier targets stay in the model but cannot be "
+                    "entered from the default session any more (transitions may only grow with add/update; a plain assignment is for the default session and for a "
+                    "mandatory session that has none yet)", loc=f"{rz.module.relpath}:{n.lineno}")
+    loops = [n for n in walk_no_nested(rz.node) if isinstance(n, ast.For) and "self.randomness_parameters.mandatory_services +" in ast.unparse(n.iter)]
+    r.check(len(loops) == 1 and m.mtext(rz, loops[0].iter).startswith("self.randomness_parameters.mandatory_services + [_L for _L in self.randomness_parameters.optional_services if"),
+            rid, f"{rz.qualname}#mandatory-services", "mandatory services must be concatenated unconditionally into every session's service list", loc=rz.loc)
+    ret = [n for n in walk_no_nested(rz.node) if isinstance(n, ast.For) and isinstance(n.iter, ast.Name) and n.iter.id in set_vars and
+           any(m.has(rz, "session_transitions[session].add(default_session)", s) for s in n.body)]
+    r.check(len(ret) == 1, rid, f"{rz.qualname}#return-to-default", "every newly offered session must get the transition back to the default session", loc=rz.loc)
+    # inductive argument for "every offered session is reachable": a session gets transitions (= is offered) only if it is the default
+    # session, a target drawn for a session that is already offered, or a mandatory session attached to an offered one
+    whiles = [n for n in walk_no_nested(rz.node) if isinstance(n, ast.While)]
+    if len(whiles) != 1 or not isinstance(whiles[0].test, ast.Compare) or "len(" not in ast.unparse(whiles[0].test):
+        raise AnalysisError(f"{rz.qualname}: level loop (while len(<level sessions>) ...) not found")
+    wl = whiles[0]
+    lvl_names = [x.id for x in ast.walk(wl.test) if isinstance(x, ast.Name) and x.id in set_vars]
+    grow = [n for n in walk_no_nested(wl) if isinstance(n, ast.For) and isinstance(n.iter, ast.Name) and n.iter.id in lvl_names]
+    ok_grow = False
+    nxt = None
+    if len(grow) == 1 and isinstance(grow[0].target, ast.Name):
+        sv = grow[0].target.id
+        upd = [c for s_ in grow[0].body for c in ast.walk(s_) if isinstance(c, ast.Call) and isinstance(c.func, ast.Attribute) and c.func.attr == "update" and len(c.args) == 1 and isinstance(c.args[0], ast.Name)]
+        into_table = [c for c in upd if isinstance(c.func.value, ast.Subscript) and isinstance(c.func.value.slice, ast.Name) and c.func.value.slice.id == sv and c.args[0].id in trans_names]
+        into_next = [c for c in upd if isinstance(c.func.value, ast.Name) and c.func.value.id in set_vars and c.args[0].id in trans_names]
+        direct = {id(s_) for s_ in grow[0].body}
+        ok_grow = len(into_table) == 1 and len(into_next) == 1 and into_table[0].args[0].id == into_next[0].args[0].id and \
+            all(any(id(s_) in direct and isinstance(s_, ast.Expr) and s_.value is c for s_ in grow[0].body) for c in (into_table[0], into_next[0]))
+        nxt = into_next[0].func.value.id if into_next else None
+    r.check(ok_grow, rid, f"{rz.qualname}#graph-growth",
+            "in the level loop the drawn targets must be added, unconditionally, both to the transitions of the (offered) session they were drawn for and to the set of "
+            "sessions of the next level; otherwise a target is offered as a sub-function but is no session of the model, or is offered without being reachable", loc=rz.loc)
+    ok_ret_set = len(ret) == 1 and nxt is not None and ret[0].iter.id == nxt and any(ret[0] is s_ for s_ in wl.body)
+    r.check(ok_ret_set, rid, f"{rz.qualname}#return-to-default-set", "the loop that adds the way back to the default session must run, in every level, over exactly the set the new targets were put into", loc=rz.loc)
+    relvl = [s_ for s_ in wl.body if isinstance(s_, ast.Assign) and isinstance(s_.targets[0], ast.Name) and s_.targets[0].id in lvl_names]
+    ok_lvl = len(relvl) == 1 and nxt is not None and ((isinstance(relvl[0].value, ast.Name) and relvl[0].value.id == nxt) or
+                                                     (isinstance(relvl[0].value, ast.BinOp) and isinstance(relvl[0].value.op, ast.Sub) and isinstance(relvl[0].value.left, ast.Name) and relvl[0].value.left.id == nxt))
+    r.check(ok_lvl, rid, f"{rz.qualname}#next-level", "the sessions expanded in the next level must be (a subset of) the targets drawn in this level: only offered, reachable sessions may receive transitions", loc=rz.loc)
+    # the service tables: one per session that has transitions; sessions without transitions are skipped one by one
+    tbl = [n for n in walk_no_nested(rz.node) if isinstance(n, ast.For) and isinstance(n.target, ast.Tuple) and len(n.target.elts) == 2 and "enumerate(" in ast.unparse(n.iter) and
+           any(isinstance(x, ast.Assign) and ast.unparse(x.targets[0]).startswith("self.services[") for x in ast.walk(n))]
+    ok_skip = False
+    if len(tbl) == 1 and tbl[0].body and isinstance(tbl[0].body[0], ast.If):
+        g = tbl[0].body[0]
+        tv = ast.unparse(tbl[0].target.elts[1])
+        from sa.util import truth_table as _tt16
+        bad_g = _tt16([(g.test, True)], {tv: [set(), {1}, {1, 2}]}, lambda a: len(a[tv]) == 0)
+        ok_skip = not bad_g and len(g.body) == 1 and isinstance(g.body[0], ast.Continue) and not g.orelse and \
+            not any(isinstance(x, (ast.Break, ast.Return)) for s_ in tbl[0].body for x in ast.walk(s_))
+    r.check(ok_skip, rid, f"{rz.qualname}#offered-sessions", "every session with transitions gets its service table; exactly the sessions without transitions are skipped (continue), "
+            "the loop never ends early", loc=rz.loc)
+    ml = [n for n in walk_no_nested(rz.node) if isinstance(n, ast.For) and ast.unparse(n.iter) == "self.randomness_parameters.mandatory_sessions"]
+    okm = False
+    if len(ml) == 1:
+        body = [ast.unparse(s) for s in ast.walk(ml[0]) if isinstance(s, (ast.Assign, ast.Expr))]
+        def idx(sub):
+            return next((i for i, t in enumerate(body) if sub in t), None)
+        body = [m.mtext(rz, s) for s in ast.walk(ml[0]) if isinstance(s, (ast.Assign, ast.Expr))]
+        a, c, own = idx("_L = [_L for _L, _L in enumerate(_L) if len(_L) > 0]"), idx("_L.choice(_L)"), idx("_L[_L] = {_L}")
+        guard = any(isinstance(s, ast.If) and m.mtext(rz, s.test).replace(" ", "") == "len(_L[_L])==0" for s in ml[0].body)
+        okm = None not in (a, c, own) and a < c < own and guard
+    r.check(okm, rid, f"{rz.qualname}#mandatory-session-parent",
+            "a mandatory session that is not yet offered must be attached to a session chosen among those already offered *before* it receives its own "
+            "transitions; otherwise it can be chosen as its own parent and is unreachable from the default session", loc=rz.loc)
+    dsc_if = [n for n in ast.walk(rz.node) if isinstance(n, ast.If) and "UDSIsoServices.DiagnosticSessionControl" in ast.unparse(n.test)]
+    dsc = [s_ for n in dsc_if for s_ in n.body if isinstance(s_, ast.Assign)]
+    enum_vars = {ast.unparse(n.target.elts[1]) for n in walk_no_nested(rz.node) if isinstance(n, ast.For) and isinstance(n.target, ast.Tuple) and "enumerate(" in ast.unparse(n.iter)}
+    r.check(len(dsc) == 1 and isinstance(dsc[0].value, ast.Call) and ast.unparse(dsc[0].value.func) == "sorted" and ast.unparse(dsc[0].value.args[0]) in enum_vars, rid, f"{rz.qualname}#dsc-sub-functions",
+            "the DiagnosticSessionControl sub-functions of a session must be exactly its (sorted) transitions", loc=rz.loc)
+
+    # the if/elif chain that selects the sub-functions per service: the DSC branch is taken exactly for DiagnosticSessionControl
+    def chain_tests(top: ast.If) -> list[ast.expr]:
+        out = [top.test]
+        while len(top.orelse) == 1 and isinstance(top.orelse[0], ast.If):
+            top = top.orelse[0]
+            out.append(top.test)
+        return out
+    heads = [n for n in ast.walk(rz.node) if isinstance(n, ast.If) and any(t is d.test for d in dsc_if for t in chain_tests(n))]
+    ok_chain = False
+    if heads and len(dsc_if) == 1:
+        head = max(heads, key=lambda h: len(chain_tests(h)))
+        tests = chain_tests(head)
+        upto = tests[:next(i for i, t in enumerate(tests) if t is dsc_if[0].test) + 1]
+        members = []
+        for t in upto:
+            if isinstance(t, ast.Compare) and len(t.ops) == 1 and isinstance(t.ops[0], ast.Eq):
+                sides = [ast.unparse(t.left), ast.unparse(t.comparators[0])]
+                mem = [x for x in sides if x.startswith("UDSIsoServices.")]
+                var = [x for x in sides if not x.startswith("UDSIsoServices.")]
+                if len(mem) == 1 and len(var) == 1 and var[0] == ast.unparse(loops[0].target) if loops else False:
+                    members.append(mem[0])
+        ok_chain = len(members) == len(upto) and len(set(members)) == len(members) and members[-1] == "UDSIsoServices.DiagnosticSessionControl"
+    r.check(ok_chain, rid, f"{rz.qualname}#dsc-branch", "the branch that sets the session transitions as sub-functions must be selected by `service == DiagnosticSessionControl`, "
+            "after equality tests for other services only", loc=rz.loc)
+
+
+
 def run(m: Model, r: Report, tier: str) -> None:
     r.rule("R1", "the server never uses the module-level random generator; the vECU command passes the configured seed through unchanged", floor=3)
     r.rule("R2", "every RNG construction is seeded from self.seed (frozen exception: security-access seeds)", floor=5)
@@ -162,24 +298,7 @@ def run(m: Model, r: Report, tier: str) -> None:
         raise AnalysisError(f"only {n_args} seed arguments found")
 
     # ---------------------------------------------------------------- R5
-    rz = m.require_function(f"{SRV}.RandomUDSServer.randomize")
-    set_vars: dict[str, list[ast.expr]] = {}
-    for n in walk_no_nested(rz.node):
-        if isinstance(n, ast.Assign) and isinstance(n.targets[0], ast.Name):
-            v = n.value
-            if isinstance(v, (ast.Set, ast.SetComp)) or (isinstance(v, ast.Call) and ast.unparse(v.func) == "set") or \
-                    (isinstance(v, ast.BinOp) and isinstance(v.op, (ast.Sub, ast.BitOr, ast.BitAnd)) and any(isinstance(x, ast.Call) and ast.unparse(x.func) == "set" for x in ast.walk(v))):
-                set_vars.setdefault(n.targets[0].id, []).append(v)
-    iterated = []
-    for n in walk_no_nested(rz.node):
-        if isinstance(n, ast.For) and isinstance(n.iter, ast.Name) and n.iter.id in set_vars:
-            iterated.append((n.iter.id, n))
-    # names known to hold ints: variables assigned an int constant, loop variables over ranges / int sets / config lists
-    int_names = {ast.unparse(n.targets[0]) for n in walk_no_nested(rz.node) if isinstance(n, ast.Assign) and isinstance(n.value, ast.Constant) and isinstance(n.value.value, int)}
-    int_names |= {ast.unparse(n.target) for n in walk_no_nested(rz.node) if isinstance(n, ast.For) and isinstance(n.target, ast.Name)}
-    comb = {ast.unparse(n.targets[0]) for n in walk_no_nested(rz.node) if isinstance(n, ast.Assign) and "mandatory_sessions + self.randomness_parameters.optional_sessions" in ast.unparse(n.value)}
-    trans_names = {ast.unparse(n.targets[0]) for n in walk_no_nested(rz.node) if isinstance(n, ast.Assign) and isinstance(n.value, ast.ListComp)
-                   and ".random()" in ast.unparse(n.value) and ast.unparse(n.value.generators[0].iter) in comb}
+    rz, set_vars, iterated, int_names, comb, trans_names = randomize_facts(m)
     for name, loop in iterated:
         # element provenance: every element ever put into the set
         elems: list[str] = []
@@ -201,100 +320,11 @@ def run(m: Model, r: Report, tier: str) -> None:
     opt = params.class_attrs.get("optional_services") if params else None
     r.check(opt is not None and "set(UDSIsoServices)" in ast.unparse(opt), "R5", f"{SRV}.RandomUDSServer.RandomnessParameters#optional_services",
             "default optional services: a set difference of IntEnum members (int hashes, hash-seed independent)", loc=params.loc if params else "")
-    if len(iterated) < 2:
+    if len(iterated) < 1:
         raise AnalysisError(f"{rz.qualname}: expected loops over session sets")
 
     # ---------------------------------------------------------------- R6
-    loops = [n for n in walk_no_nested(rz.node) if isinstance(n, ast.For) and "self.randomness_parameters.mandatory_services +" in ast.unparse(n.iter)]
-    r.check(len(loops) == 1 and m.mtext(rz, loops[0].iter).startswith("self.randomness_parameters.mandatory_services + [_L for _L in self.randomness_parameters.optional_services if"),
-            "R6", f"{rz.qualname}#mandatory-services", "mandatory services must be concatenated unconditionally into every session's service list", loc=rz.loc)
-    ret = [n for n in walk_no_nested(rz.node) if isinstance(n, ast.For) and isinstance(n.iter, ast.Name) and n.iter.id in set_vars and
-           any(m.has(rz, "session_transitions[session].add(default_session)", s) for s in n.body)]
-    r.check(len(ret) == 1, "R6", f"{rz.qualname}#return-to-default", "every newly offered session must get the transition back to the default session", loc=rz.loc)
-    # inductive argument for "every offered session is reachable": a session gets transitions (= is offered) only if it is the default
-    # session, a target drawn for a session that is already offered, or a mandatory session attached to an offered one
-    whiles = [n for n in walk_no_nested(rz.node) if isinstance(n, ast.While)]
-    if len(whiles) != 1 or not isinstance(whiles[0].test, ast.Compare) or "len(" not in ast.unparse(whiles[0].test):
-        raise AnalysisError(f"{rz.qualname}: level loop (while len(<level sessions>) ...) not found")
-    wl = whiles[0]
-    lvl_names = [x.id for x in ast.walk(wl.test) if isinstance(x, ast.Name) and x.id in set_vars]
-    grow = [n for n in walk_no_nested(wl) if isinstance(n, ast.For) and isinstance(n.iter, ast.Name) and n.iter.id in lvl_names]
-    ok_grow = False
-    nxt = None
-    if len(grow) == 1 and isinstance(grow[0].target, ast.Name):
-        sv = grow[0].target.id
-        upd = [c for s_ in grow[0].body for c in ast.walk(s_) if isinstance(c, ast.Call) and isinstance(c.func, ast.Attribute) and c.func.attr == "update" and len(c.args) == 1 and isinstance(c.args[0], ast.Name)]
-        into_table = [c for c in upd if isinstance(c.func.value, ast.Subscript) and isinstance(c.func.value.slice, ast.Name) and c.func.value.slice.id == sv and c.args[0].id in trans_names]
-        into_next = [c for c in upd if isinstance(c.func.value, ast.Name) and c.func.value.id in set_vars and c.args[0].id in trans_names]
-        direct = {id(s_) for s_ in grow[0].body}
-        ok_grow = len(into_table) == 1 and len(into_next) == 1 and into_table[0].args[0].id == into_next[0].args[0].id and \
-            all(any(id(s_) in direct and isinstance(s_, ast.Expr) and s_.value is c for s_ in grow[0].body) for c in (into_table[0], into_next[0]))
-        nxt = into_next[0].func.value.id if into_next else None
-    r.check(ok_grow, "R6", f"{rz.qualname}#graph-growth",
-            "in the level loop the drawn targets must be added, unconditionally, both to the transitions of the (offered) session they were drawn for and to the set of "
-            "sessions of the next level; otherwise a target is offered as a sub-function but is no session of the model, or is offered without being reachable", loc=rz.loc)
-    ok_ret_set = len(ret) == 1 and nxt is not None and ret[0].iter.id == nxt and any(ret[0] is s_ for s_ in wl.body)
-    r.check(ok_ret_set, "R6", f"{rz.qualname}#return-to-default-set", "the loop that adds the way back to the default session must run, in every level, over exactly the set the new targets were put into", loc=rz.loc)
-    relvl = [s_ for s_ in wl.body if isinstance(s_, ast.Assign) and isinstance(s_.targets[0], ast.Name) and s_.targets[0].id in lvl_names]
-    ok_lvl = len(relvl) == 1 and nxt is not None and ((isinstance(relvl[0].value, ast.Name) and relvl[0].value.id == nxt) or
-                                                     (isinstance(relvl[0].value, ast.BinOp) and isinstance(relvl[0].value.op, ast.Sub) and isinstance(relvl[0].value.left, ast.Name) and relvl[0].value.left.id == nxt))
-    r.check(ok_lvl, "R6", f"{rz.qualname}#next-level", "the sessions expanded in the next level must be (a subset of) the targets drawn in this level: only offered, reachable sessions may receive transitions", loc=rz.loc)
-    # the service tables: one per session that has transitions; sessions without transitions are skipped one by one
-    tbl = [n for n in walk_no_nested(rz.node) if isinstance(n, ast.For) and isinstance(n.target, ast.Tuple) and len(n.target.elts) == 2 and "enumerate(" in ast.unparse(n.iter) and
-           any(isinstance(x, ast.Assign) and ast.unparse(x.targets[0]).startswith("self.services[") for x in ast.walk(n))]
-    ok_skip = False
-    if len(tbl) == 1 and tbl[0].body and isinstance(tbl[0].body[0], ast.If):
-        g = tbl[0].body[0]
-        tv = ast.unparse(tbl[0].target.elts[1])
-        from sa.util import truth_table as _tt16
-        bad_g = _tt16([(g.test, True)], {tv: [set(), {1}, {1, 2}]}, lambda a: len(a[tv]) == 0)
-        ok_skip = not bad_g and len(g.body) == 1 and isinstance(g.body[0], ast.Continue) and not g.orelse and \
-            not any(isinstance(x, (ast.Break, ast.Return)) for s_ in tbl[0].body for x in ast.walk(s_))
-    r.check(ok_skip, "R6", f"{rz.qualname}#offered-sessions", "every session with transitions gets its service table; exactly the sessions without transitions are skipped (continue), "
-            "the loop never ends early", loc=rz.loc)
-    ml = [n for n in walk_no_nested(rz.node) if isinstance(n, ast.For) and ast.unparse(n.iter) == "self.randomness_parameters.mandatory_sessions"]
-    okm = False
-    if len(ml) == 1:
-        body = [ast.unparse(s) for s in ast.walk(ml[0]) if isinstance(s, (ast.Assign, ast.Expr))]
-        def idx(sub):
-            return next((i for i, t in enumerate(body) if sub in t), None)
-        body = [m.mtext(rz, s) for s in ast.walk(ml[0]) if isinstance(s, (ast.Assign, ast.Expr))]
-        a, c, own = idx("_L = [_L for _L, _L in enumerate(_L) if len(_L) > 0]"), idx("_L.choice(_L)"), idx("_L[_L] = {_L}")
-        guard = any(isinstance(s, ast.If) and m.mtext(rz, s.test).replace(" ", "") == "len(_L[_L])==0" for s in ml[0].body)
-        okm = None not in (a, c, own) and a < c < own and guard
-    r.check(okm, "R6", f"{rz.qualname}#mandatory-session-parent",
-            "a mandatory session that is not yet offered must be attached to a session chosen among those already offered *before* it receives its own "
-            "transitions; otherwise it can be chosen as its own parent and is unreachable from the default session", loc=rz.loc)
-    dsc_if = [n for n in ast.walk(rz.node) if isinstance(n, ast.If) and "UDSIsoServices.DiagnosticSessionControl" in ast.unparse(n.test)]
-    dsc = [s_ for n in dsc_if for s_ in n.body if isinstance(s_, ast.Assign)]
-    enum_vars = {ast.unparse(n.target.elts[1]) for n in walk_no_nested(rz.node) if isinstance(n, ast.For) and isinstance(n.target, ast.Tuple) and "enumerate(" in ast.unparse(n.iter)}
-    r.check(len(dsc) == 1 and isinstance(dsc[0].value, ast.Call) and ast.unparse(dsc[0].value.func) == "sorted" and ast.unparse(dsc[0].value.args[0]) in enum_vars, "R6", f"{rz.qualname}#dsc-sub-functions",
-            "the DiagnosticSessionControl sub-functions of a session must be exactly its (sorted) transitions", loc=rz.loc)
-
-    # the if/elif chain that selects the sub-functions per service: the DSC branch is taken exactly for DiagnosticSessionControl
-    def chain_tests(top: ast.If) -> list[ast.expr]:
-        out = [top.test]
-        while len(top.orelse) == 1 and isinstance(top.orelse[0], ast.If):
-            top = top.orelse[0]
-            out.append(top.test)
-        return out
-    heads = [n for n in ast.walk(rz.node) if isinstance(n, ast.If) and any(t is d.test for d in dsc_if for t in chain_tests(n))]
-    ok_chain = False
-    if heads and len(dsc_if) == 1:
-        head = max(heads, key=lambda h: len(chain_tests(h)))
-        tests = chain_tests(head)
-        upto = tests[:next(i for i, t in enumerate(tests) if t is dsc_if[0].test) + 1]
-        members = []
-        for t in upto:
-            if isinstance(t, ast.Compare) and len(t.ops) == 1 and isinstance(t.ops[0], ast.Eq):
-                sides = [ast.unparse(t.left), ast.unparse(t.comparators[0])]
-                mem = [x for x in sides if x.startswith("UDSIsoServices.")]
-                var = [x for x in sides if not x.startswith("UDSIsoServices.")]
-                if len(mem) == 1 and len(var) == 1 and var[0] == ast.unparse(loops[0].target) if loops else False:
-                    members.append(mem[0])
-        ok_chain = len(members) == len(upto) and len(set(members)) == len(members) and members[-1] == "UDSIsoServices.DiagnosticSessionControl"
-    r.check(ok_chain, "R6", f"{rz.qualname}#dsc-branch", "the branch that sets the session transitions as sub-functions must be selected by `service == DiagnosticSessionControl`, "
-            "after equality tests for other services only", loc=rz.loc)
+    session_graph_rules(m, r, "R6")
 
     r.extra["time_calls_outside_model"] = [f"{f.qualname}:{n.lineno}" for f in m.require_class(f"{SRV}.UDSServerTransport").methods.values()
                                            for n in ast.walk(f.node) if isinstance(n, ast.Call) and ast.unparse(n.func) == "time"]
